@@ -12,6 +12,11 @@
 //       D <shape> | DJ <junction> | X <conn>    deleteShape / deleteJunction / deleteConnector
 //       K <conn> <k> (<x> <y>)*k                ConnRef::setRoutingCheckpoints (k = 0 clears them)
 //       I <conn>                                ConnRef::makePathInvalid (forces a reroute at the next transaction)
+//       N <obj> <pin> <class> <xoff> <yoff> <dirs> <excl> [<inside>]
+//                                               new ShapeConnectionPin on shape <obj> (proportional offsets, ATTACH_POS_* = 0 / 0.5 / 1)
+//                                               or, when <obj> is a junction, new ShapeConnectionPin(junction, class, dirs); <pin> is the
+//                                               client's handle; <excl> 0/1 = setExclusive
+//       XN <pin>                                delete pin (public destructor, connectionpin.h)
 //       T                                       processTransaction
 //       Q                                       delete router
 #include <cstdio>
@@ -37,6 +42,15 @@ static Router *router = nullptr;
 static std::map<unsigned, ShapeRef *> shapes;
 static std::map<unsigned, JunctionRef *> junctions;
 static std::map<unsigned, ConnRef *> conns;
+static std::map<unsigned, ShapeConnectionPin *> pins;      // client handles of the pins made by N
+static std::map<unsigned, unsigned> pin_owner;             // pin handle -> owner id
+
+// the client gives up its handles of the pins of an obstacle it hands to deleteShape / deleteJunction (~Obstacle frees them)
+static void forget_pins_of(unsigned owner)
+{
+    for (auto it = pin_owner.begin(); it != pin_owner.end(); )
+        if (it->second == owner) { pins.erase(it->first); it = pin_owner.erase(it); } else ++it;
+}
 
 static ConnEnd readEnd(std::istringstream &in)
 {
@@ -96,6 +110,16 @@ static void dump(const char *op)
         if (v->id.isConnCheckpoint()) cps[v->id.objID]++;
     printf(" | cp");
     for (auto &kv : cps) printf(" %u:%u", kv.first, kv.second);
+    // connection pins: size of the pin set of every active obstacle, and the pin vertices in the router's vertex list
+    printf(" | pins");
+    std::map<unsigned, size_t> pc;
+    for (ObstacleList::iterator it = router->m_obstacles.begin(); it != router->m_obstacles.end(); ++it)
+        if (!(*it)->m_connection_pins.empty()) pc[(*it)->id()] = (*it)->m_connection_pins.size();
+    for (auto &kv : pc) printf(" %u:%zu", kv.first, kv.second);
+    unsigned pv = 0;
+    for (VertInf *v = router->vertices.connsBegin(); v != router->vertices.end(); v = v->lstNext)
+        if (v->id.isConnectionPin()) pv++;
+    printf(" | pv %u", pv);
     printf("\n");
     fflush(stdout);
 }
@@ -140,10 +164,10 @@ int main()
                 router->moveShape(shapes.at(id), dx, dy);
             } else if (op == "D") {
                 unsigned id; in >> id;
-                router->deleteShape(shapes.at(id)); shapes.erase(id);
+                router->deleteShape(shapes.at(id)); shapes.erase(id); forget_pins_of(id);
             } else if (op == "DJ") {
                 unsigned id; in >> id;
-                router->deleteJunction(junctions.at(id)); junctions.erase(id);
+                router->deleteJunction(junctions.at(id)); junctions.erase(id); forget_pins_of(id);
             } else if (op == "X") {
                 unsigned id; in >> id;
                 router->deleteConnector(conns.at(id)); conns.erase(id);
@@ -155,10 +179,25 @@ int main()
             } else if (op == "I") {
                 unsigned id; in >> id;
                 conns.at(id)->makePathInvalid();
+            } else if (op == "N") {
+                unsigned obj, pid, cls, dirs; double xo, yo, inside = 0.0; int excl;
+                in >> obj >> pid >> cls >> xo >> yo >> dirs >> excl;
+                if (!(in >> inside)) inside = 0.0;
+                ShapeConnectionPin *p;
+                if (shapes.count(obj)) p = new ShapeConnectionPin(shapes.at(obj), cls, xo, yo, true, inside, (ConnDirFlags) dirs);
+                else p = new ShapeConnectionPin(junctions.at(obj), cls, (ConnDirFlags) dirs);
+                p->setExclusive(excl != 0);
+                pins[pid] = p; pin_owner[pid] = obj;
+            } else if (op == "XN") {
+                unsigned pid; in >> pid;
+                delete pins.at(pid); pins.erase(pid); pin_owner.erase(pid);
             } else if (op == "T") {
                 router->processTransaction();
             } else if (op == "Q") {
                 delete router; router = nullptr;
+                // everything the router owned is gone: drop the client's (now dangling) handles, so that whatever the library
+                // failed to free is unreachable and LeakSanitizer reports it
+                shapes.clear(); junctions.clear(); conns.clear(); pins.clear(); pin_owner.clear();
             } else {
                 fprintf(stderr, "unknown op %s\n", op.c_str());
                 return 3;
